@@ -172,6 +172,7 @@ Definition mldsa_44 : N := 3.
 Definition mldsa44_pub_size : N := 1312.
 Definition mldsa65_pub_size : N := 1952.
 Definition mldsa87_pub_size : N := 2592.
+Definition mldsa_seed_size : N := 32.              (* internal/signature/mldsa SecretKeySeedSize *)
 Definition pt_with_id_requirement : N := 5.        (* OutputPrefixType_WITH_ID_REQUIREMENT (accepted by keyset.Validate since /repo 4b80d2c) *)
 
 (* ---- SLH-DSA: signature/slhdsa/key.go parameter sets: private key of 4n = 64, 96, 128 bytes ---- *)
@@ -217,6 +218,8 @@ Definition url_jwt_mldsa_pub := "type.googleapis.com/google.crypto.tink.JwtMlDsa
 Definition url_mldsa_pub := "type.googleapis.com/google.crypto.tink.MlDsaPublicKey".
 Definition url_slhdsa_pub := "type.googleapis.com/google.crypto.tink.SlhDsaPublicKey".
 Definition url_slhdsa_priv := "type.googleapis.com/google.crypto.tink.SlhDsaPrivateKey".
+Definition url_mldsa_priv := "type.googleapis.com/google.crypto.tink.MlDsaPrivateKey".
+Definition url_jwt_mldsa_priv := "type.googleapis.com/google.crypto.tink.JwtMlDsaPrivateKey".
 
 (* ---- the registered key types outside the 16 that model/Secrets.v (C13) was
    built on: C13 keeps deciding keysets that hold one of them by its direct
@@ -251,13 +254,13 @@ Definition c13_outside_urls : list string := (
 
 (* ---- type URLs that have a registered key parser (RegisterKeyParser) which
    this model does not transcribe; keysets containing them are decided by the
-   direct check only.  ML-DSA private keys (plain, JWT, composite) need the
-   library's own ML-DSA key generation, for which the Go standard library has
-   no counterpart to act as oracle; the composite and PRF-based-deriver keys
-   nest another key / key template ---- *)
+   direct check only: the composite ML-DSA and PRF-based-deriver keys nest
+   another key / key template.  (ML-DSA and JWT ML-DSA private keys are
+   transcribed: the public key of a seed is asked of the stdlib record, field
+   mldsa_pub, answered at run time by the library's own ML-DSA key generation -
+   the Go standard library has none - which is trusted for that one function;
+   C10 is the property about it.) ---- *)
 Definition unmodelled_urls : list string := (
   "type.googleapis.com/google.crypto.tink.PrfBasedDeriverKey" ::
-  "type.googleapis.com/google.crypto.tink.JwtMlDsaPrivateKey" ::
-  "type.googleapis.com/google.crypto.tink.MlDsaPrivateKey" ::
   "type.googleapis.com/google.crypto.tink.CompositeMlDsaPublicKey" ::
   "type.googleapis.com/google.crypto.tink.CompositeMlDsaPrivateKey" :: nil)%list.
